@@ -66,6 +66,33 @@ PUNCT = b" .,;:!?_-=+*/<>|#@%&~^'\"`$\\"
 BODY_PLAIN = LETTERS + b"      " + PUNCT
 
 
+_FAST_TABLE = bytes(BODY_PLAIN[i % len(BODY_PLAIN)] for i in range(256))
+
+
+def fast_body(rng, n):
+    """n body bytes (no digits, no newline) at C speed, for logs of hundreds of kilobytes"""
+    return rng.randbytes(n).translate(_FAST_TABLE)
+
+
+def gen_big_text_log(rng, total_bytes, line_len=(200, 1200), notation=1, t0=946684800_000_000_000, step_ns=1_000_000_000,
+                     letter=b"B"):
+    """large chronological log -> (content, [Msg])"""
+    out = bytearray()
+    msgs = []
+    t = t0
+    i = 0
+    while len(out) < total_bytes:
+        t += rng.choice((0, step_ns, step_ns, 3 * step_ns))
+        head = stamp(t, 0, notation, 3) + b" " + letter + tag26(i, 5)
+        m = head + b" " + fast_body(rng, rng.randint(*line_len)) + b"\n"
+        if rng.random() < 0.1:
+            m += b" cont " + fast_body(rng, rng.randint(1, 300)) + b"\n"
+        out += m
+        msgs.append(Msg(t, bytes(m), b""))
+        i += 1
+    return bytes(out), msgs
+
+
 def tag26(n, width=3):
     s = b""
     for _ in range(width):
@@ -369,7 +396,7 @@ def random_container(rng, kind, data, mtime=0, name="x.log"):
         return (to_gz(data, level=lvl, mtime=mtime, comment=b"made by sim"),
                 {"kind": "gz", "level": lvl, "hdr": "comment"})
     if kind == "bz2":
-        lvl = rng.choice((1, 5, 9))
+        lvl = rng.choice((1, 1, 2, 9))
         return to_bz2(data, lvl), {"kind": "bz2", "level": lvl}
     if kind == "xz":
         preset = rng.choice((0, 3, 6))
